@@ -90,6 +90,10 @@ fn real_main(args: &[String]) -> i32 {
             runner::merge_parts(&prop, &parts, seed, &tier)
         }
         "digest-plan" => runner::digest_plan(args.get(2).map(|s| s.as_str()).unwrap_or("")),
+        "child" => match (args.get(2).map(|s| s.as_str()), args.get(3), args.get(4)) {
+            (Some("hash-file"), Some(how), Some(path)) => cli::child_hash_file(how, path),
+            _ => 2,
+        },
         "replay" => {
             let Some(p) = args.get(2) else {
                 eprintln!("usage: b3sim replay <file>");
